@@ -675,6 +675,12 @@ func (j *judge) b58class(salt int64) {
 		j.c.infraf("b58 class %v: driver's decoder says %v for %q, the model says %v", x, rok, s, ln.R.Ok)
 		return
 	}
+	j.judgeAddr58(s, vb, hash)
+}
+
+// judgeAddr58: s is the driver-built string for (version vb, hash); the model's verdict is in j.ln.R
+func (j *judge) judgeAddr58(s string, vb byte, hash []byte) {
+	ln := j.ln
 	sigc := diagnose(s, false)
 	var a *btc.BtcAddr
 	var e error
@@ -690,6 +696,12 @@ func (j *judge) b58class(salt int64) {
 	if got && !ln.R.Ok {
 		dec, _ := refB58Decode(s)
 		j.bad("b58:NewAddrFromString:accepted:"+sigc, "NewAddrFromString(%q) accepted a string that is not a Base58Check address: %s (Base58 payload %x, %d bytes)", s, sigc, dec, len(dec))
+		return
+	}
+	if !got && ln.R.Ok && ln.R.Kind == "unspecified" {
+		// well-formed Base58Check, but not a P2PKH / P2SH version of mainnet / testnet: the property does not say
+		// whether such a string is an address (e.g. version 128 strings may even start with "tb1")
+		j.c.observe("b58:unspecified-version-refused", "NewAddrFromString(%q) refused (%v) the well-formed Base58Check string of version %d", s, e, vb)
 		return
 	}
 	if !got && ln.R.Ok {
@@ -807,6 +819,12 @@ func (j *judge) wifclass(salt int64) {
 		j.c.infraf("wif class %v: driver's decoder says %v for %q, the model says %v", x, refOk, s, ln.R.Ok)
 		return
 	}
+	j.judgeWif(s, vb, key)
+}
+
+// judgeWif: s is the driver-built string for (version vb, key); the model's verdict and compression are in j.ln.R
+func (j *judge) judgeWif(s string, vb byte, key []byte) {
+	ln := j.ln
 	sigc := diagnose(s, true)
 	var pa *btc.PrivateAddr
 	var e error
@@ -840,7 +858,14 @@ func (j *judge) wifclass(salt int64) {
 	}
 	var compr bool
 	if p := protect(func() { compr = pa.IsCompressed() }); p != nil || compr != ln.R.Compressed {
-		j.bad("wif:compressed", "DecodePrivateAddr(%q): compressed=%v (panic %v), WIF says %v", s, compr, p, ln.R.Compressed)
+		dec, _ := refB58Decode(s)
+		j.bad("wif:compressed", "DecodePrivateAddr(%q): compressed=%v (panic %v); the payload %x has %d bytes, so WIF says compressed=%v", s, compr, p, dec, len(dec), ln.R.Compressed)
+	}
+	// the address attached to the key must be the one of (key, compression)
+	var h1, h2 [20]byte
+	protect(func() { h1 = pa.BtcAddr.Hash160; h2 = btc.NewPrivateAddr(key, vb, ln.R.Compressed).BtcAddr.Hash160 })
+	if h1 != h2 {
+		j.bad("wif:address", "DecodePrivateAddr(%q): attached address hash %x, the key with compressed=%v has %x", s, h1, ln.R.Compressed, h2)
 	}
 	var re string
 	protect(func() { re = pa.String() })
@@ -856,6 +881,106 @@ func (j *judge) wifclass(salt int64) {
 	}
 }
 
+// ---------------------------------------------------------------- constructed well-formed classes
+
+func validKey(key []byte) bool {
+	k := new(big.Int).SetBytes(key)
+	return k.Sign() > 0 && k.Cmp(curveN) < 0
+}
+
+// construct searches the free bytes (key or hash, n of them) of a well-formed payload version || free || tail || checksum
+// for the constraint (ctype, cval) of spec/Addr.tla; found=false only for an unreachable leading character.
+func construct(rnd *rand.Rand, vb byte, n int, tail []byte, ctype, cval int, isKey bool) (free []byte, s string, found bool) {
+	for try := 0; try < 1<<17; try++ {
+		free = make([]byte, n)
+		rnd.Read(free)
+		switch ctype {
+		case 3:
+			free[n-1] = byte(cval)
+		case 5:
+			free[0] = byte(cval)
+		case 4:
+			if try < 256 {
+				free[0] = byte(try) // the leading character follows the leading bytes
+			} else if try < 512 {
+				free[0], free[1] = 0, byte(try)
+			} else if try > 4096 {
+				return nil, "", false
+			}
+		}
+		if isKey && !validKey(free) {
+			continue
+		}
+		payload := append(append([]byte{vb}, free...), tail...)
+		ck := sha256d(payload)[:4]
+		payload = append(payload, ck...)
+		switch ctype {
+		case 1:
+			if int(ck[0]) != cval {
+				continue
+			}
+		case 2:
+			if int(ck[3]) != cval {
+				continue
+			}
+		}
+		s = refB58Encode(payload)
+		if ctype == 4 && s[0] != b58alphabet[cval] {
+			continue
+		}
+		return free, s, true
+	}
+	return nil, "", false
+}
+
+func (j *judge) constructed(salt int64, wif bool) {
+	x := j.ln.C.X
+	want := 3
+	if wif {
+		want = 4
+	}
+	if len(x) != want {
+		j.c.infraf("constructed class with %d parameters", len(x))
+		return
+	}
+	vb := byte(x[0])
+	ctype, cval := x[len(x)-2], x[len(x)-1]
+	seed := salt*1000211 + int64(x[0])*7919 + int64(ctype)*104729 + int64(cval)*31 + int64(j.inst)*1299709
+	if wif {
+		seed += int64(x[1]) * 15485863
+	}
+	rnd := rand.New(rand.NewSource(seed))
+	var free []byte
+	var s string
+	var found bool
+	if wif {
+		var tail []byte
+		if x[1] == 38 {
+			tail = []byte{1}
+		}
+		free, s, found = construct(rnd, vb, 32, tail, ctype, cval, true)
+	} else {
+		free, s, found = construct(rnd, vb, 20, nil, ctype, cval, false)
+	}
+	if !found {
+		if ctype != 4 {
+			j.c.infraf("constructed class %v: no payload found", x)
+		} else {
+			j.c.observe("constructed:leading-character-unreachable", "class %v", x)
+		}
+		return
+	}
+	if wif {
+		j.judgeWif(s, vb, free)
+	} else {
+		if rv, rh, rok := refAddr58(s); !rok || rv != vb || !bytes.Equal(rh, free) {
+			j.c.infraf("constructed class %v: driver's decoder refuses its own string %q", x, s)
+			return
+		}
+		j.judgeAddr58(s, vb, free)
+	}
+}
+
 // ---------------------------------------------------------------- replay
 
 var b32Kinds = map[string]bool{"seed": true, "sub": true, "upper": true, "upsub": true, "del": true, "ins": true, "swap": true,
@@ -868,6 +993,7 @@ func cmdReplay(args []string) {
 	workers := fs.Int("workers", 8, "")
 	salt := fs.Int64("salt", 1, "")
 	inst := fs.Int("inst", 2, "concrete strings per Base58Check / WIF class")
+	vol := fs.Int("vol", 0, "concrete strings per WELL-FORMED random Base58Check / WIF class (0 = same as -inst)")
 	fs.Parse(args)
 	col := &collector{out: vio.NewOut(), bySig: map[string]int{}, perKind: map[string]int{}, obs: map[string]int{}}
 	jobs := make(chan []byte, 1024)
@@ -884,7 +1010,13 @@ func cmdReplay(args []string) {
 			col.perKind[ln.C.K]++
 			col.mu.Unlock()
 			n := 1
-			if ln.C.K == "b58" || ln.C.K == "wif" {
+			switch ln.C.K {
+			case "b58", "wif":
+				n = *inst
+				if ln.R.Ok && *vol > n {
+					n = *vol
+				}
+			case "b58c", "wifc":
 				n = *inst
 			}
 			for i := 0; i < n; i++ {
@@ -898,6 +1030,10 @@ func cmdReplay(args []string) {
 					j.b58class(*salt)
 				case ln.C.K == "wif":
 					j.wifclass(*salt)
+				case ln.C.K == "b58c":
+					j.constructed(*salt, false)
+				case ln.C.K == "wifc":
+					j.constructed(*salt, true)
 				case ln.C.K == "start" || ln.C.K == "group":
 					continue
 				default:
